@@ -20,7 +20,7 @@ ASSUMPTIONS = [
     "serving a request is modelled as micro-steps (begin / user code reads or sets the context / reply) of the serving thread; "
     "which thread serves which request is observed and fed to the model, the theorems hold for every assignment",
     "user methods are arbitrary sequences of context reads and response-annotation writes followed by return or raise",
-    "Daemon.annotations() is a constant of the daemon (it is overridable user code)",
+    "Daemon.annotations() is a constant of the daemon (it is overridable user code); in part of the histories the hook hands out one long-lived dict object, which the daemon must leave unchanged",
     "late scheduling of a oneway thread is forced by wrapping _OnewayCallThread.run in the harness process (the thread waits on an event before the original run())",
     "a request whose peer reset the connection while it was queued is fed to the model with the address field None iff getpeername() fails on that connection when handleRequest is entered",
     "in-place stores a method makes into its own request's annotations are subtracted from what later reads of the same request see before comparing with the request message's annotations",
@@ -225,7 +225,12 @@ def start_server(case, world):
     config.THREADPOOL_SIZE = case["pool"]
     d = srv.daemon
     dmn = adict(case["dmn"])
-    d.annotations = lambda: dict(dmn)
+    if case.get("dmn_keep"):
+        # the hook returns the SAME dict object every time (an attribute / class constant: an ordinary way to write it);
+        # the daemon must not accumulate anything in it
+        d.annotations = lambda: dmn
+    else:
+        d.annotations = lambda: dict(dmn)
     orig_hs, orig_hr = d._handshake, d.handleRequest
     from Pyro5.callcontext import current_context as cc
 
@@ -791,7 +796,7 @@ def run_client_case(case):
     from Pyro5 import config
     from Pyro5.callcontext import current_context as cc
     world = World()
-    srv = start_server({"server": case["server"], "pool": POOL_MAX, "dmn": case["dmn"]}, world)
+    srv = start_server({"server": case["server"], "pool": POOL_MAX, "dmn": case["dmn"], "dmn_keep": case.get("dmn_keep")}, world)
     me = threading.get_ident()
     seen = []      # (msg type, annotation ids) of every message received by this thread
     orig_recv = protocol.recv_stub
@@ -1033,6 +1038,7 @@ def gen_server_case(rng, size=None):
     server = rng.choice(["thread", "multiplex"])
     pool = rng.choice([1, 1, 2, POOL_MAX]) if server == "thread" else 1
     case = {"kind": "server", "server": server, "pool": pool, "dmn": rng.choice([[], [], [40001], [40001, 40002]]), "ops": []}
+    case["dmn_keep"] = rng.random() < 0.4
     tk = Tok()
     ops = case["ops"]
     open_, nextc, seqs = [], [0], {}
@@ -1161,6 +1167,7 @@ def gen_server_case(rng, size=None):
 
 def gen_client_case(rng):
     case = {"kind": "client", "server": rng.choice(["thread", "multiplex"]), "dmn": rng.choice([[], [], [40001]]), "ops": []}
+    case["dmn_keep"] = rng.random() < 0.4
     tk = Tok()
     ops = case["ops"]
     nprox = rng.choice([1, 1, 2])
@@ -1232,6 +1239,17 @@ def targeted():
          "holder": {"op": "batch", "c": 1, "seq": 1, "tok": 3, "ser": "serpent", "corr": False, "oneway": True,
                     "members": [{"steps": [["snap", 4], ["gate", 5]], "raise": False, "tok": 6}]},
          "call": {"op": "oneway", "c": 1, "seq": 2, "tok": 7, "ser": "json", "corr": True, "steps": [["snap", 8]], "raise": False}}]})
+    # a daemon whose annotations() hook hands out one long-lived dict: nothing a call sets may end up in it
+    for server, pool in (("multiplex", 1), ("thread", 1)):
+        for dmn in ([], [40001]):
+            out.append({"kind": "server", "server": server, "pool": pool, "dmn": dmn, "dmn_keep": True, "ops": [
+                {"op": "connect", "c": 0, "how": "ok"},
+                {"op": "call", "c": 0, "seq": 1, "tok": 1, "ser": "serpent", "corr": True, "steps": [["set", "U", [7]], ["snap", 2]], "raise": False},
+                {"op": "call", "c": 0, "seq": 2, "tok": 3, "ser": "json", "corr": False, "qann": False, "steps": [["snap", 4]], "raise": False},
+                {"op": "ping", "c": 0, "seq": 3},
+                {"op": "close", "c": 0}, {"op": "connect", "c": 1, "how": "ok"},
+                {"op": "call", "c": 1, "seq": 1, "tok": 5, "ser": "marshal", "corr": False, "steps": [["set", "A", [8]], ["snap", 6]], "raise": False},
+                {"op": "connect", "c": 2, "how": "refused"}]})
     # in-place stores: into the request annotations (then annotation-free requests of others), and by a running oneway method
     for server, pool in (("multiplex", 1), ("thread", 1)):
         out.append({"kind": "server", "server": server, "pool": pool, "dmn": [], "ops": [
